@@ -120,6 +120,16 @@ def make_run(t):
             ok, b = ctx.must(lambda: specs.lib_decode(t, spec["format"], specs.lib_write(b))[0], "decode", f"decoding a valid {t} block")
             if not ok:
                 return
+        if t in ("data3D", "force3D", "emg") and (len(case["spec"].get("tracks") or case["spec"].get("signals") or []) + (1 if case.get("origin") == "decoded" else 0)) % 2:
+            # the block's history contains an edit that was REFUSED (an item of another length, the documented ValueError): it left nothing
+            from .c16 import make_track as _mk
+
+            nfr_ = spec.get("nSamples", spec.get("nFrames", 1))
+            try:
+                (b.addSignal if t == "emg" else b.add_track)(_mk(t, nfr_ + 3, "refused", 3))
+            except Exception:  # noqa - C16's subject
+                pass
+            ctx.label("history-with-a-refused-edit")
         before = specs.lib_write(b)
         state_before = state_of(b)
         items = list(iter(b))
